@@ -218,3 +218,12 @@ Definition boxcar_out (n : nat) (Lub : Z) (Llb : option Z) (x : nat -> Q) : nat 
   dc_restore n x (boxcar_chan n Lub Llb x).
 (* n_iterations = 0: conv_s is never assigned before it is sliced (UnboundLocalError) *)
 Definition boxcar_defined (iters : nat) : bool := negb (iters =? 0)%nat.
+
+(* FilterAnalyzer.filtfilt(b, a, in_ts=None), lines 313-323: data, Fs, t0, time_unit are those of in_ts
+   when it is given, of the analyzer's own series otherwise *)
+Definition pick {A} (own : A) (in_ts : option A) : A := match in_ts with Some x => x | None => own end.
+Definition filtfilt_method (n : nat) (F : (nat -> Q) -> nat -> Q) (own : nat -> Q)
+  (in_ts : option (nat -> Q)) : nat -> Q :=
+  let data := pick own in_ts in dc_restore n data (F data).
+Definition filtfilt_method_axis (own : tsin) (in_ts : option tsin) : option axis :=
+  out_axis MFiltfilt (pick own in_ts).
